@@ -72,7 +72,7 @@ m = {
    "guard": "verif",
    "enable": "go build -tags verif (vcheck.sh builds ./cmd/vcheck against /repo with -tags verif, plus -race for the concurrency properties)",
    "baseline_off_cmd": "cd /repo && export PATH=/root/go/pkg/mod/golang.org/toolchain@v0.0.1-go1.25.8.linux-amd64/bin:$PATH GOTOOLCHAIN=local GOFLAGS=-mod=mod GOPROXY=off && go test -mod=mod -json -vet=off -count=1 -timeout 25m ./...",
-   "source_commits": ["b631a9c", "f3a2c9f"],
+   "source_commits": ["b631a9c", "f3a2c9f", "9c76935"],
    "add_only": True,
  },
  "engines": [
